@@ -531,12 +531,110 @@ def gen_program(rng, ill):
     return {"env": env, "prog": body, "ill": ill}
 
 
+class _TooBig(Exception):
+    pass
+
+
+def _size(v, budget):
+    if isinstance(v, bool) or v is None:
+        return 1
+    if isinstance(v, int):
+        if v > 80:
+            raise _TooBig()
+        return 1
+    if isinstance(v, str):
+        if len(v) > 80:
+            raise _TooBig()
+        return 1
+    if isinstance(v, (list, tuple)):
+        if len(v) > 60:
+            raise _TooBig()
+        n = 1
+        for x in v:
+            n += _size(x, budget)
+            if n > budget:
+                raise _TooBig()
+        return n
+    return 1
+
+
+def _nesting(v):
+    if not isinstance(v, (list, tuple)):
+        return 0
+    return 1 + max([_nesting(x) for x in v] + [0])
+
+
+def small_enough(case):
+    """Generation-time filter (deterministic: no clock): a program is kept when the translator refuses it (it is never executed)
+    or when a traced dry run stays within 3000 line events with every local small after every line - loops that double a
+    value are exponential, and the Coq side computes with unary naturals."""
+    import sys
+    import types
+
+    from translate import minipy
+    from translate.pyast import Unrecognised
+    try:
+        src, params = to_source(case)
+        fn = ast.parse(src).body[0]
+        minipy.method_block(fn, minipy.Ctx(attr_vars=ATTR_VARS, attr_targets=["self.acc"], prims={"utils.get_nesting_level": "ENestLevel"}))
+    except Unrecognised as e:
+        return "aliasing" in str(e)
+    except Exception:  # noqa: BLE001
+        return True          # printer / translator trouble is the runner's to report
+    steps = [0]
+
+    def tracer(frame, event, arg):
+        if frame.f_code.co_filename != "<minipy-gen>":
+            return None
+        if event in ("line", "return"):
+            steps[0] += 1
+            if steps[0] > 3000:
+                raise _TooBig()
+            for v in frame.f_locals.values():
+                if isinstance(v, types.SimpleNamespace):
+                    for w in vars(v).values():
+                        _size(w, 400)
+                else:
+                    _size(v, 400)
+            if event == "return":
+                _size(arg, 400)
+        return tracer
+
+    glob = {"utils": types.SimpleNamespace(get_nesting_level=_nesting, InconsistentArgumentError=type("InconsistentArgumentError", (Exception,), {}))}
+    import warnings
+    with warnings.catch_warnings():
+        warnings.simplefilter("ignore")
+        exec(compile(ast.parse(src), "<minipy-gen>", "exec", dont_inherit=True), glob)
+    self_obj, args = types.SimpleNamespace(), {}
+    for x, v in case["env"]:
+        if x.startswith("self."):
+            setattr(self_obj, x.split(".", 1)[1], _pyval(v))
+            args["self"] = self_obj
+        else:
+            args[x] = _pyval(v)
+    old = sys.gettrace()
+    sys.settrace(tracer)
+    try:
+        glob["f"](**args)
+    except _TooBig:
+        return False
+    except RecursionError:
+        return False
+    except BaseException:  # noqa: BLE001
+        pass
+    finally:
+        sys.settrace(old)
+    return True
+
+
 def gen(tier, seed):
     rng = random.Random(f"MINIPY-{seed}")
     n = 2000 if tier == "quick" else 30000
     cases = list(FIXED)
     while len(cases) < n:
-        cases.append(gen_program(rng, rng.random() < 0.25))
+        c = gen_program(rng, rng.random() < 0.25)
+        if small_enough(c):
+            cases.append(c)
     return cases
 
 
